@@ -4,4 +4,5 @@ import chainlib, chaintrace
 def run(tier):
     return chainlib.run_family("C19", tier, "Chain_prune.cfg", "Chain_prune_edges.cfg",
                                {"quick": (1, 5), "thorough": (3, 6)},
-                               probes=[("Chain_prune_dev.cfg", ["AllValid", "NeverPanics"])], extra=chaintrace.leg_t("C19"))
+                               probes=[("Chain_prune_dev.cfg", ["AllValid", "NeverPanics"])], extra=chaintrace.leg_t("C19"),
+                               thorough_paths=150000)
